@@ -324,6 +324,24 @@ static int pb_clean(const uint8_t *dst, int len, uint8_t bg) {
     return bytes_all(PB, a, bg) && bytes_all(dst + len, sizeof PB - a - (size_t)len, bg);
 }
 
+/* the documented grow-shrink-grow switches of the split-full families: the one place where a longer encoding is
+ * followed by a shorter one (3 bytes at 4210749 / 4210750, 2 bytes for the next 255 values) */
+static int shrink_allowed(int fam, uint64_t v_next) {
+#ifdef VARINT_SPLIT_FULL_USE_MAXIMUM_RANGE
+    if (fam == F_SPLITFULL && v_next == 4210750) {
+        return 1;
+    }
+#endif
+#ifdef VARINT_SPLIT_FULL_NO_ZERO_USE_MAXIMUM_RANGE
+    if (fam == F_SPLITNZ && v_next == 4210751) {
+        return 1;
+    }
+#endif
+    (void)fam;
+    (void)v_next;
+    return 0;
+}
+
 static void full_tagged(uint64_t v) {
     const int fam = F_TAGGED;
     int len = ref_tagged(v, (uint8_t[16]){0});
@@ -865,7 +883,7 @@ static void run_c01_c04(void) {
                         }
                         cur_v = v;
                         int len = core_eval(fam, v, (int)(v & 15));
-                        if (prev >= 0 && len < prev) {
+                        if (prev >= 0 && len < prev && !shrink_allowed(fam, v)) {
                             char api[64];
                             snprintf(api, sizeof api, "%s.put", FNAME[fam]);
                             vh_fail(api, "length_not_monotone", "untagged", "len(%" PRIu64 ")=%d > len(%" PRIu64 ")=%d", v - 1, prev, v, len);
@@ -911,7 +929,7 @@ static void run_c01_c04(void) {
                         int l0 = fam_len(fam, v), l1 = fam_len(fam, v + 1);
                         uint8_t a[16], b2[16];
                         int p0 = fam_put(fam, a, v), p1 = fam_put(fam, b2, v + 1);
-                        if (l1 < l0 || p1 < p0) {
+                        if ((l1 < l0 || p1 < p0) && !shrink_allowed(fam, v + 1)) {
                             char api[64];
                             snprintf(api, sizeof api, "%s.put", FNAME[fam]);
                             vh_fail(api, "length_not_monotone", "untagged", "len(%" PRIu64 ")=%d/%d > len(v+1)=%d/%d", v, l0, p0, l1, p1);
@@ -1302,6 +1320,24 @@ static void run_c05(void) {
                 vh_fail("tagged.producers", "equal_values_different_bytes", "untagged", "v=%" PRIu64 ": Put64 %s, Put64FixedWidth %s, Put64FixedWidthQuick_(expression operand) %s, PutVarint32 %s", v, vh_hex(e0, 10), vh_hex(e1, 10),
                         vh_hex(e2, 10), v <= UINT32_MAX ? vh_hex(e3, 10) : "-");
             }
+            /* in-place update through the macro: the operand expression READS the destination (a counter kept as a
+             * tagged varint): the operand is evaluated before the destination is written, as with the function */
+            {
+                static const uint64_t FROM[10] = {0, 1, 240, 241, 2287, 2288, 67823, 67824, 16777215, 16777216};
+                for (int fi = 0; fi < 12; fi++) {
+                    uint64_t from = fi < 10 ? FROM[fi] : fi == 10 ? v - (v ? 1 : 0) : v + 1;
+                    uint8_t key[16];
+                    memset(key, 0xa5, 16);
+                    varintTaggedPut64(key, from);
+                    varintTaggedPut64FixedWidthQuick_(key, varintTaggedGet64Quick_(key) + (v - from), l0);
+                    if (memcmp(key, e0, (size_t)l0)) {
+                        vh_fail("tagged.producers", "equal_values_different_bytes", "untagged", "v=%" PRIu64 " written in place over %" PRIu64 " with Put64FixedWidthQuick_(key, Get64Quick_(key) + d, %d): %s, Put64 gives %s", v, from, l0,
+                                vh_hex(key, 10), vh_hex(e0, 10));
+                        break;
+                    }
+                }
+                vh_count("calls", 12);
+            }
             vh_count("calls", 4);
             vh_count("cases", 1);
         }
@@ -1607,6 +1643,7 @@ int main(int argc, char **argv) {
     P_C05 = !strcmp(PROP, "C05");
     P_C12 = !strcmp(PROP, "C12");
     vh_sandbox_init();
+    vh_watchdog(60); /* a library call that makes no progress for a whole period is reported as a hang */
     vh_gb_init(0, 4096);
     if (P_C01 || P_C04) {
         run_c01_c04();
